@@ -116,6 +116,59 @@ func c09Main(r *run.Runner) {
 			c09One(w, "'\\"+c+ct)
 		}
 	})
+	// every rune after a backslash inside a string (escape tables indexed by something narrower than a rune)
+	bounds["rune_escapes"] = 0x110000 - 0x80
+	r.Sweep("rune-escapes", (0x110000-0x80+4095)/4096, func(w *run.Worker, item int64) {
+		for cp := 0x80 + int(item)*4096; cp < 0x80+int(item+1)*4096 && cp < 0x110000; cp++ {
+			if cp >= 0xD800 && cp < 0xE000 {
+				continue
+			}
+			c09One(w, "'J \\"+string(rune(cp))+"l'")
+			if cp%64 == 0 {
+				c09One(w, "\"C:\\"+string(rune(cp))+"\\"+string(rune(cp+1))+"\" x")
+			}
+		}
+	})
+	// decimal literals with 1-3 mantissa digits, with and without fraction, with every exponent of ordinary magnitude
+	// (numeric accessors agree with the spelling)
+	r.Sweep("float-literals", 999, func(w *run.Worker, item int64) {
+		m := int(item) + 1
+		ms := fmt.Sprint(m)
+		forms := []string{ms, ms + ".0", "0." + ms, ms[:1] + "." + ms[1:] + "5"}
+		if len(ms) > 1 {
+			forms = append(forms, ms[:1]+"."+ms[1:], ms[:len(ms)-1]+"."+ms[len(ms)-1:])
+		}
+		for _, f := range forms {
+			for e := -45; e <= 45; e++ {
+				for _, ef := range []string{"e%d", "E%+d"} {
+					c09One(w, f+fmt.Sprintf(ef, e))
+				}
+			}
+			for _, e := range []int{-330, -324, -323, -308, -307, 300, 307, 308, 309} {
+				c09One(w, fmt.Sprintf("%se%d", f, e))
+			}
+		}
+	})
+	// long string and name bodies with one special byte at the start, in the middle or at the end (fast paths keyed on length)
+	var lens []int
+	for n := 0; n <= 70; n++ {
+		lens = append(lens, n)
+	}
+	lens = append(lens, 127, 128, 129, 255, 256, 257, 1000, 4096)
+	r.Sweep("long-strings", int64(len(lens)), func(w *run.Worker, item int64) {
+		n := lens[item]
+		for _, fill := range []string{"A", " ", "-", "x", "n"} {
+			for _, special := range []string{"\n", "\r", "\r\n", "\\", "'", "\"", "`", "\\n", "\\'", "\x00", "é"} {
+				for _, pos := range []int{0, n / 2, n} {
+					body := strings.Repeat(fill, pos) + special + strings.Repeat(fill, n-pos)
+					for _, q := range []string{"'", "\"", "`"} {
+						c09One(w, "let b = "+q+body+q+";\nT | where m == b")
+						c09One(w, q+body)
+					}
+				}
+			}
+		}
+	})
 	// long runs of bytes that each give an error token (limits on the number of diagnostics), alone and spread over statements
 	junkSizes := []int{9, 10, 11, 99, 100, 101, 255, 256, 257, 999, 1000, 1001, 1023, 1024, 1025, 4095, 4096, 4097, 10000}
 	if r.Thorough() {
@@ -296,10 +349,10 @@ func checkAccessors(lexeme string, t parser.Token) string {
 		}
 	}
 	// Float64 where the value is zero or of ordinary magnitude
-	f, _ := new(big.Float).SetPrec(200).SetRat(v).Float64()
+	f, _ := v.Float64() // the float64 nearest to the exact rational value of the spelling
 	if v.Sign() == 0 || (math.Abs(f) > 1e-300 && math.Abs(f) < 1e300) {
 		got := lit.Float64()
-		if got != f && math.Abs(got-f) > math.Abs(f)*1e-15 {
+		if got != f {
 			return fmt.Sprintf("literal %q: Float64()=%v, want %v", lexeme, got, f)
 		}
 		if !isInt && v.IsInt() && v.Cmp(big.NewRat(1<<53, 1)) < 0 {
